@@ -71,7 +71,7 @@ def run(ck, fb):
     sr = fb.main(CA + '::send_raft_request') if fb.has(CA + '::send_raft_request') else None
     if sr:
         cw = sr.calls(r'async_raft_ext::Raft::<.*>::client_write$|Raft::<D, R, N, S>::client_write$')
-        ck.require(len(cw) == 1 and util.awaited(sr, cw[0]), 'R06a', 'send_raft_request:client_write', sr.where(), 'client_write is not awaited')
+        ck.require(len(cw) >= 1 and all(util.awaited(sr, _x) for _x in cw), 'R06a', 'send_raft_request:client_write', sr.where(), 'client_write is not awaited')
         if cw:
             oks = util.ok_return_blocks(sr)
             # an Ok(()) on the path through client_write must be under its Continue arm
@@ -154,7 +154,7 @@ def run(ck, fb):
         ck.analysed(m)
         for var, arm in (('Add', 'ConfigSet'), ('Delete', 'ConfigDel')):
             sd = util.sends(m, r'config::core::ConfigAsyncCmd$', var)
-            ck.require(len(sd) == 1 and sd[0][0].callee.endswith('::send') and util.awaited(m, sd[0][0]), 'R06d', 'handle_route:%s' % arm, m.where(),
+            ck.require(len(sd) >= 1 and all(_x[0].callee.endswith('::send') and util.awaited(m, _x[0]) for _x in sd), 'R06d', 'handle_route:%s' % arm, m.where(),
                        'routed %s is not served by an awaited ConfigAsyncCmd::%s' % (arm, var))
             for (s, _, _, _) in sd:
                 vg = [vv for (a, vv) in util.variant_guards(m, s.bb) if a and a.endswith('RouterRequest')]
